@@ -229,7 +229,11 @@ CHECKS.update({
              "C07_object_free_output_validates (round trip composed with the C06 agreement) and C07_output_validates_with_classes: "
              "for dataclasses / NamedTuples of the round-trip fragment nested to any depth, given inline or through $ref + $defs, the serialization "
              "specification produces JSON that validates against the schema and definitions of that model (instance of the image "
-             "invariant theorem, Ser/ImageInv.v); executable hypotheses counted on the cases. Partial: classes with skip options, "
+             "invariant theorem, Ser/ImageInv.v); C07_required_field_never_omitted and C07_required_keys_always_emitted_and_emitted_keys_declared "
+             "(every class, option and default kind: the builder's required rule against the serializer's omission rule); "
+             "C07_output_validates_under_every_serialization_option (inline classes with any skip option, exclude_* setting, "
+             "order and primitive serialized methods: the image invariant for objects holding a subset of their properties); "
+             "executable hypotheses counted on the cases. Partial: classes with skip options, "
              "exclude_* settings or serialized methods are covered by the oracle only: every serialize output "
              "is validated with jsonschema against serialization_schema generated under the same global settings, and the Coq "
              "validator model jvalid is compared with jsonschema on the same pairs.",
